@@ -1141,6 +1141,11 @@ func (g *fnGen) loop(node ast.Stmt, cond ast.Expr, post ast.Stmt, body *ast.Bloc
 		callBody += " " + c.name
 	}
 	it := "iter " + fuel + " (" + callBody + ") " + paren(sV)
+	if fuel == "@objects" {
+		// a pointer walk: the number of heap objects bounds it (lib/GoLitePtr.v)
+		g.t.usesPtr = true
+		it = "iter_objs (" + callBody + ") " + paren(sV)
+	}
 	out := pre
 	switch {
 	case canFall && rets:
@@ -1651,6 +1656,9 @@ func (g *fnGen) expr(e ast.Expr, p *[]binding) string {
 			if sel.Kind() != types.FieldVal {
 				g.failf(e, "method value")
 			}
+			if g.t.isViaSel(g.fi.pk, x) {
+				return g.viaVar(e, x)
+			}
 			if on := g.t.objectOf(g.typeOf(x.X)); on != nil {
 				k, fty := g.t.objField(e, on, x.Sel.Name)
 				ptr := g.expr(x.X, p)
@@ -1712,6 +1720,9 @@ func (g *fnGen) expr(e ast.Expr, p *[]binding) string {
 			return g.expr(x.X, p)
 		case token.AND:
 			if cl, ok := ast.Unparen(x.X).(*ast.CompositeLit); ok {
+				if on := g.t.objectOf(g.typeOf(e)); on != nil {
+					return g.objComposite(cl, on, p)
+				}
 				return g.composite(cl, p)
 			}
 		}
@@ -1722,6 +1733,12 @@ func (g *fnGen) expr(e ast.Expr, p *[]binding) string {
 		return g.binary(x, p)
 	case *ast.IndexExpr:
 		tx := g.typeOf(x.X)
+		if isMapType(tx) {
+			g.t.coqType(e, tx)
+			m := g.expr(x.X, p)
+			kk := g.expr(x.Index, p)
+			return "(fst (mapget " + paren(kk) + " " + paren(m) + "))"
+		}
 		if !isSliceType(tx) && !isStringType(tx) {
 			g.failf(e, "index of %s", tx)
 		}
@@ -1755,27 +1772,98 @@ func (g *fnGen) expr(e ast.Expr, p *[]binding) string {
 	return ""
 }
 
+// objComposite: &S{f: e, ...} with S an object type: a fresh object, then the stores
+func (g *fnGen) objComposite(cl *ast.CompositeLit, on *types.Named, p *[]binding) string {
+	st := on.Underlying().(*types.Struct)
+	type fv struct {
+		k   int
+		fty types.Type
+		v   string
+	}
+	var fvs []fv
+	for _, el := range cl.Elts {
+		kv, ok := el.(*ast.KeyValueExpr)
+		if !ok {
+			g.failf(el, "positional composite literal of an object type")
+		}
+		id, ok := kv.Key.(*ast.Ident)
+		if !ok {
+			g.failf(el, "composite literal key")
+		}
+		k, fty := g.t.objField(el, on, id.Name)
+		fvs = append(fvs, fv{k, fty, g.exprAs(kv.Value, fty, p)})
+	}
+	tmp := g.fresh()
+	*p = append(*p, binding{pat: tmp, rhs: fmt.Sprintf("obj_new %d", st.NumFields())})
+	for _, f := range fvs {
+		v := f.v
+		if isBoolType(f.fty) {
+			v = "b2z " + paren(v)
+		}
+		*p = append(*p, binding{pat: "_", rhs: fmt.Sprintf("fld_store %s %d %s", tmp, f.k, paren(v))})
+	}
+	return tmp
+}
+
 func (g *fnGen) composite(cl *ast.CompositeLit, p *[]binding) string {
+	if g.t.opaqueName(g.typeOf(cl)) != "" {
+		// a value of an opaque library struct (sync.Pool{New: ...}): a handle; what
+		// the literal says (the New function) is part of the assumptions on the
+		// parameters that stand for its methods
+		return "0"
+	}
 	n := g.t.structOf(g.typeOf(cl))
 	if n == nil {
 		g.failf(cl, "composite literal of %s", g.typeOf(cl))
 	}
 	si := g.t.structInfoOf(cl, n)
 	vals := map[string]string{}
+	viaField := g.t.via[n.Origin().Obj().Name()]
+	if len(cl.Elts) > 0 {
+		if _, keyed := cl.Elts[0].(*ast.KeyValueExpr); !keyed {
+			// positional: one value per field, in declaration order
+			st := n.Origin().Underlying().(*types.Struct)
+			if len(cl.Elts) != st.NumFields() || len(si.fields) != st.NumFields() {
+				g.failf(cl, "positional composite literal of a struct with fields outside the subset")
+			}
+			for i, el := range cl.Elts {
+				if _, keyed := el.(*ast.KeyValueExpr); keyed {
+					g.failf(el, "mixed composite literal")
+				}
+				vals[si.fields[i].Name()] = g.exprAs(el, si.fields[i].Type(), p)
+			}
+		}
+	}
 	for _, el := range cl.Elts {
 		kv, ok := el.(*ast.KeyValueExpr)
 		if !ok {
-			g.failf(el, "positional composite literal")
+			continue
 		}
 		id, ok := kv.Key.(*ast.Ident)
 		if !ok {
 			g.failf(el, "composite literal key")
+		}
+		if viaField != "" && id.Name == viaField {
+			// the --via field must be given the one instance this function knows
+			var q []binding
+			v := g.expr(kv.Value, &q)
+			want := g.viaName
+			if !g.fi.via {
+				want = g.viaRecv(g.typeOf(kv.Value))
+			}
+			if len(q) != 0 || want == "" || v != want {
+				g.failf(el, "the --via field %s is initialised with something that is not the instance in scope", viaField)
+			}
+			continue
 		}
 		var ft types.Type
 		for _, f := range si.fields {
 			if f.Name() == id.Name {
 				ft = f.Type()
 			}
+		}
+		if ft == nil {
+			g.failf(el, "field %s.%s has a type outside the subset", si.name, id.Name)
 		}
 		vals[id.Name] = g.exprAs(kv.Value, ft, p)
 	}
@@ -1884,6 +1972,14 @@ func (g *fnGen) binary(x *ast.BinaryExpr, p *[]binding) string {
 			if isNil(x.X) {
 				other = x.Y
 			}
+			if g.t.objectOf(g.typeOf(other)) != nil && (x.Op == token.EQL || x.Op == token.NEQ) {
+				// an object pointer: nil is 0
+				t := "(" + paren(g.expr(other, p)) + " =? 0)"
+				if x.Op == token.NEQ {
+					return "(negb " + t + ")"
+				}
+				return t
+			}
 			if !isErrorType(g.typeOf(other)) || (x.Op != token.EQL && x.Op != token.NEQ) {
 				g.failf(x, "comparison of %s with nil", g.typeOf(other))
 			}
@@ -1894,6 +1990,12 @@ func (g *fnGen) binary(x *ast.BinaryExpr, p *[]binding) string {
 			return t
 		}
 		a, b := paren(g.expr(x.X, p)), paren(g.expr(x.Y, p))
+		if g.t.objectOf(tx) != nil && g.t.objectOf(ty) != nil && (x.Op == token.EQL || x.Op == token.NEQ) {
+			if x.Op == token.EQL {
+				return "(" + a + " =? " + b + ")"
+			}
+			return "(negb (" + a + " =? " + b + "))"
+		}
 		if isBoolType(tx) && isBoolType(ty) {
 			switch x.Op {
 			case token.EQL:
@@ -2078,14 +2180,27 @@ func (g *fnGen) call(call *ast.CallExpr, p *[]binding) string {
 				if n := g.t.structOf(g.typeOf(call)); n != nil {
 					return g.t.zeroOf(call, g.typeOf(call))
 				}
+				if on := g.t.objectOf(g.typeOf(call)); on != nil {
+					tmp := g.fresh()
+					*p = append(*p, binding{pat: tmp, rhs: fmt.Sprintf("obj_new %d", on.Underlying().(*types.Struct).NumFields())})
+					return tmp
+				}
 				g.failf(call, "new(%s)", g.typeOf(call))
 			case "len", "cap":
 				ta := g.typeOf(call.Args[0])
+				if id.Name == "len" && isMapType(ta) {
+					g.t.coqType(call, ta)
+					return "(maplen " + paren(g.expr(call.Args[0], p)) + ")"
+				}
 				if !isSliceType(ta) && !isStringType(ta) {
 					g.failf(call, "%s of %s", id.Name, ta)
 				}
 				return "(s_" + id.Name + " " + paren(g.expr(call.Args[0], p)) + ")"
 			case "copy", "make", "append":
+				if id.Name == "make" && len(call.Args) == 1 && isMapType(g.typeOf(call)) {
+					g.t.coqType(call, g.typeOf(call))
+					return "mapnew"
+				}
 				term, _ := g.effectCall(call, p)
 				tmp := g.fresh()
 				*p = append(*p, binding{pat: tmp, rhs: term})
